@@ -275,7 +275,7 @@ def _kan_props(modules, rule, oracle_pass=None, oracle_project=None, nontrivial=
 
 
 PROPS = {
-    'C02': _kan_props(['KVerif.Props.C02', 'KVerif.Props.C02frag'],
+    'C02': _kan_props(['KVerif.Props.C02', 'KVerif.Props.C02frag', 'KVerif.Props.C02full'],
         'hand-written capacity-edge shapes (11-14 held layers, 18 stacked one-shot layers, repeat re-entering its container, 11 concurrent tap-holds + queue flood, every valid key code once) plus random whole-grammar configurations (incl. custom actions) driven by histories that are not physically consistent (repeated presses, stray releases, repeat and tap events, unmapped codes, floods of 70-200 events); non-trivial = output changed at least twice; oracle: every configuration the real parser accepts must satisfy CfgWF (evaluated by the driver on the serialised parse result) and must be processed without panic/abort/hang',
         None, _crash_or_ok),
     'C01': _kan_props(['KVerif.Props.C01', 'KVerif.Props.C01q2'],
@@ -1049,7 +1049,7 @@ def _c16_describe(case):
 
 
 PROPS['C16'] = {
-    'lean_modules': ['KVerif.Props.C16'],
+    'lean_modules': ['KVerif.Props.C16', 'KVerif.Props.C16tmpl'],
     'norm_impl': _c16_norm,
     'oracle_project': _c16_pair,
     'nontrivial': _c16_nontrivial,
@@ -1380,7 +1380,7 @@ def _c15_describe(case):
 
 
 PROPS['C15'] = {
-    'lean_modules': ['KVerif.Props.C15'],
+    'lean_modules': ['KVerif.Props.C15', 'KVerif.Props.C15fresh'],
     'oracle_project': _c15_project,
     'nontrivial': _c15_nontrivial,
     'rule': 'simple-fragment traces through the real processing-loop shape under virtual time (exhaustive families: every reload action from every position with 1-3 files; 6 kinds of new content x 7 kinds of held state at the request; back-to-back requests; then random scripts over random 1-4 file sets with files rewritten mid-run) compared token by token with the Lean model (impl = model) and with the restart specification (impl = spec); plus relational cases on rich configurations (22 histories x 5 content kinds x 3 new configurations, random continuations): failed reload vs no request, successful reload vs fresh instance; non-trivial = a reload was attempted (trace cases) / always (relational); distinct = distinct case line',
@@ -1609,7 +1609,7 @@ PROPS['C11'] = {
 }
 
 
-PROPS['C06'] = _lay_props(['KVerif.Props.C06'],
+PROPS['C06'] = _lay_props(['KVerif.Props.C06', 'KVerif.Props.C06mix'],
     'one-shot keys: 4 end variants x T in {3,10,500} x rapid-event-delay {default 5, 0, 1} x inner action {modifier key, output chord, layer-while-held of a layer mapping the plain keys to marker keys}; lone one-shot key held for {0,1,T-1,T,T+1} ticks, alone and followed by two plain keys at every pair of gaps; exhaustive physically consistent schedules (<= N events) over one one-shot key and two plain keys with gaps {0,1,T-1,T,T+1} (all configurations for N <= 2, a seed-rotated subset for N = 3, 4, thorough: 5); 2-3 one-shot keys tapped in a row with every gap (and re-tapped) followed by two plain keys, exhaustive schedules over 2-3 one-shot keys and plain keys; random long histories with mixed variants and timeouts; 18 one-shot keys tapped / held in a row and at random (more than 16 stacked) and one key tapped 20 times; non-trivial = output changed at least twice; distinct = distinct case line. Oracle on the implementation trace: nothing down at the end of a balanced history; a plain key that is not the first key pressed after the last one-shot key press (press variants) / pressed after the release of a key pressed since then (release variants) comes out unmodified and on its base-layer code; the whole trace equals the run of Spec/OneShot.lean (modifier down from activation until max(1,delay) ticks after the first other press / the tick after the first release / the tick after a pcancel re-press / exactly T ticks after the last activation, held one-shot keys stay down as plain keys) wherever that specification is not silent (<= 16 active, <= 31 pending, uniform variant)',
     'C06o',
     assumptions=['OS output is taken as the key-code list of the layout per tick (the kanata diffing layer is modelled separately)',
